@@ -6,8 +6,27 @@ RULE = ("(baseline, target) pairs from generated evolutions (baseline = replay o
         "non-trivial = plan with >=2 actions of >=2 kinds or >=2 tables, distinct by hash")
 
 
+def theorem_coverage(chk, res, rows):
+    """share of the sampled pairs that fall under the proved class theorem C06_core_partial3 (hyp_C06_change), and a
+    consistency test: hypothesis true must imply the implementation-side oracle passed"""
+    import vflib
+    vflib.build_layer("m1", targets=["Corr/Hyp06.vo"])
+    vals = m1run.eval_on_all_cases(res, "hyp_C06_change", imports="Corr Known2 Hyp Hyp06")
+    judged = sum(1 for r in rows if r.get("oracles", {}).get("c06") is not None)
+    chk.cov["theorem_coverage"]["cases_judged_by_oracle"] = judged
+    if vals is None:
+        chk.cov["theorem_coverage"]["cases_under_C06_core_partial3"] = "not evaluated"
+        return
+    chk.cov["theorem_coverage"]["cases_under_C06_core_partial3"] = sum(1 for v in vals.values() if v)
+    for i, v in vals.items():
+        o = rows[i].get("oracles", {}).get("c06")
+        if v and o is not None and not o.get("ok", True):
+            chk.violation(vflib.write_replay("C06", "theorem:hyp_C06_change-contradicted", {"input": m1run.input_of(rows[i]), "oracle": o}))
+            break
+
+
 def run(tier, seed):
-    return m1run.m1_check("C06", tier, seed, subchecks=[1, 3, 4], oracle_key="c06", known_ids=[], rule=RULE,
+    return m1run.m1_check("C06", tier, seed, subchecks=[1, 3, 4], oracle_key="c06", known_ids=[], rule=RULE, extra=theorem_coverage,
                           assumptions=["tie: K-norm, K-apply, K-diff evaluated inside Coq on every case",
                                        "consistency = distinct table names, constraint columns exist, FK target table/columns exist with equal arity (validate_schema's referential rules without the must-have-a-PK rule)"])
 
